@@ -15,6 +15,21 @@ import (
 )
 
 var c17Strings = []string{"", "x", strings.Repeat("long-", 60), "\xff\xfe\x00utf8?", strings.Repeat("a", 127), strings.Repeat("b", 128)}
+// c17Big: indices of strings longer than (and exactly as long as) the 1 MiB step in which the
+// reader takes strings whose length came from the wire; used as single deviations only.
+var c17Big = func() []int {
+	var idx []int
+	for _, n := range []int{1 << 20, 1<<20 + 1, 2<<20 + 5} {
+		b := make([]byte, n)
+		for i := range b {
+			b[i] = byte('a' + i%23)
+		}
+		idx = append(idx, len(c17Strings))
+		c17Strings = append(c17Strings, string(b))
+	}
+	return idx
+}()
+
 var c17Ints = []int{0, 1, 127, 128, 16383, 16384, math.MaxInt32, math.MaxInt64}
 
 // msg17 is one protocol message in library form together with its reference form.
@@ -314,7 +329,7 @@ func revClass(rev int) string {
 
 // C17 — protocol messages encode and decode symmetrically at every revision.
 func C17(c *vk.Ctx) {
-	c.Rule("messages {ClientHello, ServerHello, Query with ClientInfo / Settings / Parameters, ClientData, Block header + info, Progress, Profile, Exception, TableColumns} with <= 2 fields deviating from the base value over per-field alphabets (strings empty / 1 / 127 / 128 / 300 bytes / non-UTF-8; integers 0, 1, 127, 128, 16383, 16384, 2^31-1, 2^63-1; every enum member; span contexts: none, valid, valid with trace state, and every value 0..255 of the one-byte trace flags) x revisions (quick: threshold-neighbour set 50000..54480; thorough: every revision 50000..54500). Oracle: library encoding = reference encoding byte for byte; library decoding of it = the message as far as the revision carries it, with zero unread bytes. distinct_nontrivial = distinct (message, field vector, revision) triples.")
+	c.Rule("messages {ClientHello, ServerHello, Query with ClientInfo / Settings / Parameters, ClientData, Block header + info, Progress, Profile, Exception, TableColumns} with <= 2 fields deviating from the base value (plus, one string field at a time at three revisions, strings of 1 MiB / 1 MiB + 1 / 2 MiB + 5 bytes) over per-field alphabets (strings empty / 1 / 127 / 128 / 300 bytes / non-UTF-8; integers 0, 1, 127, 128, 16383, 16384, 2^31-1, 2^63-1; every enum member; span contexts: none, valid, valid with trace state, and every value 0..255 of the one-byte trace flags) x revisions (quick: threshold-neighbour set 50000..54480; thorough: every revision 50000..54500). Oracle: library encoding = reference encoding byte for byte; library decoding of it = the message as far as the revision carries it, with zero unread bytes. distinct_nontrivial = distinct (message, field vector, revision) triples.")
 	revs := refwire.RevSet(50000, 54480)
 	if !c.Quick() {
 		revs = revs[:0]
@@ -340,8 +355,27 @@ func C17(c *vk.Ctx) {
 				}
 			}
 		}
-		for _, vec := range vecs {
-			for _, rev := range revs {
+		// strings beyond the 1 MiB step: one field at a time, at three revisions
+		nSmall := len(vecs)
+		for i := 0; i < m.fields; i++ {
+			if m.alph[i] != 6 {
+				continue // not a free-form string field
+			}
+			for _, bi := range c17Big {
+				v := append([]int{}, base...)
+				v[i] = bi
+				// a six-valued field that is not a string indexes its own table: not applicable
+				if msg, _ := vk.Recover(func() { m.build(v, revs[0]) }); msg != "" {
+					continue
+				}
+				vecs = append(vecs, v)
+			}
+		}
+		for vi, vec := range vecs {
+			for ri, rev := range revs {
+				if vi >= nSmall && ri != 0 && ri != len(revs)/2 && ri != len(revs)-1 {
+					continue
+				}
 				id := fmt.Sprintf("%s/%v/rev=%d", m.name, vec, rev)
 				if !c.Next(id) {
 					continue
